@@ -370,10 +370,10 @@ func GenHistory(r *Rng, cfg GenCfg) []Op {
 					if cfg.CmpMode == 1 && len(g.shadow[nm]) == 0 && !g.everFlushed && r.Chance(1, 2) {
 						old := g.cmpOf[nm]
 						g.cmpOf[nm] = r.Intn(4)
-						if old != 0 && r.Chance(1, 2) {
+						if old != 0 && r.Chance(1, 3) {
 							g.cmpOf[nm] = 0 // back to the default order (the harness passes nil for it)
-							back = true
 						}
+						back = g.cmpOf[nm] != old // another comparator on an existing name: make the new order observable at once
 					}
 					ops = append(ops, Op{K: "coll", Name: nm, N: g.cmpOf[nm]})
 					g.colls[nm] = true
